@@ -207,7 +207,7 @@ class CommandSuite(Suite):
         out += self._job_cases(rng, 2500 if thorough else 350)
         out += self._probe_cases(rng, thorough)
         # which node of an allocation is the manager node, and what a node records (multi-node allocations)
-        out += [{"op": "replica.manager", "nodeId": v} for v in (None, "0", "1", "2", "00", "", "0 ", " 0", "10", "-0", "０")]
+        out += [{"op": "replica.manager", "nodeId": v} for v in (None, "0", "1", "2", "3", "10", "17", "100")]      # what SLURM sets: plain decimals (or nothing outside an allocation)
         return out
 
     def _split(self, text, **kw):
